@@ -78,3 +78,76 @@ Section SrcWhile.
       apply (Agree_pop gl args env (push_frame st) (shape st) locals V A vs (shape_push st) Hagp).
   Qed.
 End SrcWhile.
+
+(** ** [do body while (c)] *)
+Lemma exec_do_unfold M fu body c st :
+  exec M (S fu) (SDo body c) st =
+  (rdo r <- exec_list M fu body (push_frame (push_frame st)); let '(fl, st1) := r in
+   let st2 := pop_frame st1 in
+   match fl with
+   | OBreak => RefSem.ROk (ONormal, pop_frame st2)
+   | OReturn v => RefSem.ROk (OReturn v, pop_frame st2)
+   | _ => rdo p <- (rdo p <- eval M fu c st2; let '(v, st1) := p in rdo x <- scalar v; RefSem.ROk (truth x, st1)); let '(b, st3) := p in
+          if b then exec M fu (SDo body c) (pop_frame st3) else RefSem.ROk (ONormal, pop_frame st3)
+   end).
+Proof. reflexivity. Qed.
+
+Lemma elab_do_unfold G env b c :
+  elab_stmt G env (SDo b c) =
+  (let env1 := [] :: env in
+   edo b' <- elab_body G ([] :: env1) b;
+   edo c' <- elab G COn env1 c;
+   EOk (TDo b' c', env)).
+Proof. reflexivity. Qed.
+
+Section DMono.
+  Variable structs : list sdef.
+  Variable gl args : list string.
+  Lemma dloop_mono n cs locals b c : forall k V A vs r, dloop structs gl args n k cs locals b c V A vs = Some r -> forall k', k <= k' -> dloop structs gl args n k' cs locals b c V A vs = Some r.
+  Proof.
+    induction k as [|k IH]; intros V A vs r H k' Hle; [discriminate|]. destruct k' as [|k']; [lia|]. cbn [dloop] in *.
+    destruct (bexec structs gl args (S n) cs locals (TBlock b) V A vs) as [[[V1 A1] vs1]|]; [|discriminate].
+    destruct (teval structs gl args cs locals (mkfr V1 A1) vs1 c) as [w| |]; try discriminate.
+    destruct (truthy (hp vs1) w) as [[|]| |]; try discriminate; [|exact H]. apply (IH _ _ _ _ H). lia.
+  Qed.
+End DMono.
+
+Section SrcDo.
+  Variable M : module.
+  Variable G : genv.
+  Variable structs : list sdef.
+  Variable gl args : list string.
+  Variable cs : list (nat * irty * cval).
+
+  Lemma src_do n b c b' c' env : spure c = true -> forallb (bsrc n) b = true ->
+    elab_body G ([] :: [] :: env) b = EOk b' -> elab G COn ([] :: env) c = EOk c' ->
+    tok c' = true -> lit_ok cs c' -> bgood cs (S n) (TBlock b') ->
+    forall fuel st fl st1 locals V A vs,
+      exec M fuel (SDo b c) st = RefSem.ROk (fl, st1) -> Agree gl args env st locals V A vs ->
+      fl = ONormal /\ shape st1 = shape st /\
+      exists V' A' vs', dloop structs gl args n fuel cs locals b' c' V A vs = Some (V', A', vs') /\ Agree gl args env st1 locals V' A' vs'.
+  Proof.
+    intros Hpc Hbb Eb Ec Hkc Hlc Hgb. induction fuel as [|fu IH]; intros st fl st1 locals V A vs Hex Hag; [discriminate|].
+    pose proof (Agree_push gl args env st locals V A vs Hag) as Hagp.
+    pose proof (Agree_push gl args ([] :: env) (push_frame st) locals V A vs Hagp) as Hagpp.
+    rewrite exec_do_unfold in Hex.
+    destruct (exec_list M fu b (push_frame (push_frame st))) as [[fl1 st2]| | |] eqn:Exb; cbn [rbind] in Hex; try discriminate.
+    destruct (src_list M G structs gl args cs n (src_all M G structs gl args cs n) b b' ([] :: [] :: env) fu (push_frame (push_frame st)) fl1 st2 locals V A vs Hbb Eb Hgb Exb Hagpp)
+      as (-> & Hsh & V1 & A1 & vs1 & Hx & Hag2).
+    rewrite !shape_push in Hsh. cbn zeta in Hex.
+    pose proof (Agree_pop gl args ([] :: env) st2 ([] :: shape st) locals V1 A1 vs1 Hsh Hag2) as Hag3.
+    pose proof (shape_pop st2 ([] :: shape st) Hsh) as Hsh3.
+    destruct (eval M fu c (pop_frame st2)) as [[v st0]| | |] eqn:Ev; cbn [rbind] in Hex; try discriminate.
+    destruct (lit_teval structs gl args cs c' locals (mkfr V1 A1) vs1 Hlc) as [Hli Hlf].
+    destruct (elab_pure_correct M G structs gl args cs locals (mkfr V1 A1) vs1 ([] :: env) (pop_frame st2) Hag3 c c' Hpc Ec Hkc Hli Hlf) as (Hpt & Hsemc).
+    destruct (Hsemc _ _ _ Ev) as (-> & w & -> & _ & Hvc). cbn [scalar rbind] in Hex.
+    pose proof (Agree_pop gl args env (pop_frame st2) (shape st) locals V1 A1 vs1 Hsh3 Hag3) as Hag4.
+    pose proof (shape_pop (pop_frame st2) (shape st) Hsh3) as Hsh4.
+    destruct (truth w) eqn:Etr.
+    - destruct (IH (pop_frame (pop_frame st2)) fl st1 locals V1 A1 vs1 Hex Hag4) as (Hfl & Hsh1 & V' & A' & vs' & Hw & Hag').
+      split; [exact Hfl|]. split; [rewrite Hsh1; exact Hsh4|].
+      exists V', A', vs'. split; [|exact Hag']. cbn [dloop]. rewrite bexec_block, Hx, Hvc, truthy_v_of, Etr. exact Hw.
+    - inversion Hex; subst fl st1; clear Hex. split; [reflexivity|]. split; [exact Hsh4|].
+      exists V1, A1, vs1. split; [cbn [dloop]; rewrite bexec_block, Hx, Hvc, truthy_v_of, Etr; reflexivity|exact Hag4].
+  Qed.
+End SrcDo.
